@@ -4,6 +4,7 @@ import (
 	"bytes"
 	"encoding/json"
 	"fmt"
+	"strings"
 
 	redact "github.com/cockroachdb/redact"
 )
@@ -256,6 +257,24 @@ func checkC07(c *Ctx) {
 		w.SeenB([]byte{b0, b1})
 	})
 	replayers["C07/byte-windows"] = replayers["C07/arbitrary"]
+	// systematic size family: n envelopes for every n in 0..130 (batching, fixed-size tables, counters), in a few
+	// arrangements, and n bytes of content in one envelope
+	units := []string{mStart + "x" + mEnd, mStart + mEnd, "a" + mStart + "x\ny" + mEnd, mStart + "x" + mEnd + "\n", mRed + " "}
+	c.Section("C07/counts", map[string]interface{}{"envelopes": "every n in 0..130", "arrangements": len(units), "content_lengths": "every n in 0..130"}, 131*(len(units)+1), func(i int, w *Worker) {
+		n, k := i%131, i/131
+		var x []byte
+		if k < len(units) {
+			x = []byte("p" + strings.Repeat(units[k], n) + "s")
+		} else {
+			x = []byte(mStart + strings.Repeat("c", n) + mEnd + strings.Repeat("t", n))
+		}
+		w.Eval()
+		if cl, d := c07Eval(x, w.Retained()); cl != "" {
+			w.Fail(cl, map[string]interface{}{"s": x, "quoted": q(string(x))}, d)
+		}
+		w.Seen(uint64(i))
+	})
+	replayers["C07/counts"] = replayers["C07/arbitrary"]
 	// two windows from the marker look-alikes under bit masks (lead byte equal in the low nibble, continuation
 	// bytes equal in the low six bits), with text around them: a fake start is only visible with a (fake) end
 	var alias [][]byte
